@@ -389,10 +389,10 @@ def fuzz_stage(acc, seed, bins, vocab, corp, seconds):
     seeds = list(corp)
     for _ in range(3000):
         x = r3.random()
-        seeds.append(bound_powers(gen_unicode(r3) if x < 0.2 else gen_soup(r3, vocab) if x < 0.4 else gen_structured(r3, vocab)))
+        seeds.append(bound_powers(gen_unicode(r3) if x < 0.15 else gen_soup(r3, vocab) if x < 0.3 else gen_pumped(r3, vocab) if x < 0.4 else gen_phrase(r3, vocab) if x < 0.5 else gen_structured(r3, vocab)))
     dictionary = sorted(set(vocab["units"][:400] + vocab["facts"][:300] + FUNCS + PUNCT + ZEROISH + ["°C", "°F", "e-3", "E+2", "^2", "^-1", " to ", "%"]))
     try:
-        res = fuzz.run("c11", seeds, dictionary, seconds, os.path.join(OUT, "work", "fuzz-c11"))
+        res = fuzz.run("c11", seeds, dictionary, seconds, os.path.join(OUT, "work", "fuzz-c11"), max_len=300)
     except Exception as ex:
         acc.inconc("fuzz stage failed to run: %r" % (ex,))
         return
